@@ -12,7 +12,7 @@ ID = "C11"
 TITLE = "Port-ID and minor-version consistency rules hold for every set of definitions"
 RULE = (
     "Cases are sets of 2..8 individually valid definitions over <= 3 names in a vendor root namespace: versions (major 0..2, minor 0..3), "
-    "kind (message / service), fixed port-ID absent or one of two regulated values per kind, sealed vs delimited, two extents, for "
+    "kind (message / service), fixed port-ID absent or one of two values per kind (regulated ones, or 0 and another unregulated one with the allow flag), sealed vs delimited, two extents, for "
     "services independently for request and response; in a second part the (port-less, message) definitions live in a lookup namespace "
     "and a target references both, one or none of each pair.  Oracle: an independent implementation of the statement over tuples - "
     "same-kind port-ID collisions unless same name and (same major or a major of 0); per (name, major): same kind, port-ID equal or "
@@ -26,6 +26,7 @@ ASSUMPTIONS = [
 BUDGET = {"quick": 500, "thorough": 10000}
 
 PORTS = {False: [6200, 6201], True: [300, 301]}
+UNREGULATED_PORTS = {False: [0, 7], True: [0, 5]}  # used with allow_unregulated_fixed_port_id=True (0 is a valid port-ID)
 
 
 def def_text(d: typing.Any) -> str:
@@ -40,8 +41,8 @@ def def_text(d: typing.Any) -> str:
     return "\n".join(lines) + "\n"
 
 
-def file_name(d: typing.Any) -> str:
-    port = "" if d["port"] is None else "%d." % PORTS[d["service"]][d["port"]]
+def file_name(d: typing.Any, unregulated: bool = False) -> str:
+    port = "" if d["port"] is None else "%d." % (UNREGULATED_PORTS if unregulated else PORTS)[d["service"]][d["port"]]
     return "%s%s.%d.%d.dsdl" % (port, d["name"], d["version"][0], d["version"][1])
 
 
@@ -118,13 +119,14 @@ def check_target(case: typing.Any, ctx: Ctx) -> Info:
     try:
         root = os.path.join(d, "vendor")
         os.makedirs(root)
+        unreg = bool(case.get("unregulated"))
         for x in defs:
-            with open(os.path.join(root, file_name(x)), "w") as f:
+            with open(os.path.join(root, file_name(x, unreg)), "w") as f:
                 f.write(def_text(x))
-        res, ex = guarded(pydsdl.read_namespace, root, [], allowed=(pydsdl.InvalidDefinitionError,), what="read_namespace")
+        res, ex = guarded(pydsdl.read_namespace, root, [], None, unreg, allowed=(pydsdl.InvalidDefinitionError,), what="read_namespace")
     finally:
         ctx.cleanup(d)
-    where = ", ".join(file_name(x) + ("{%s}" % def_text(x).replace("\n", ";")) for x in defs)
+    where = ("unregulated ports allowed: " if unreg else "") + ", ".join(file_name(x, unreg) + ("{%s}" % def_text(x).replace("\n", ";")) for x in defs)
     if v is None:
         require(ex is None, "conforming-set-rejected", "accepted", "%s: %s" % (type(ex).__name__, ex), where)
         require(len(res) == len(defs), "conforming-set-size", len(defs), len(res), where)
@@ -133,7 +135,7 @@ def check_target(case: typing.Any, ctx: Ctx) -> Info:
     names = [x["name"] for x in defs]
     ports = [(x["service"], x["port"]) for x in defs if x["port"] is not None]
     shared = len(set(names)) < len(names) or len(set(ports)) < len(ports)
-    return Info(shared, ["target", "verdict:" + (v or "ok"), "defs:%d" % len(defs)], sample=where)
+    return Info(shared, ["target", "verdict:" + (v or "ok"), "defs:%d" % len(defs)] + (["unregulated-ports"] if unreg else []), sample=where)
 
 
 def check_lookup(case: typing.Any, ctx: Ctx) -> Info:
@@ -189,7 +191,7 @@ def _defs(names: typing.List[str]) -> st.SearchStrategy:
 
 
 def parts(ctx: Ctx) -> typing.List[Part]:
-    target_cases = st.fixed_dictionaries({"defs": st.one_of(_defs(["A"]), _defs(["A", "B"]), _defs(["A", "B", "C"]))})
+    target_cases = st.fixed_dictionaries({"defs": st.one_of(_defs(["A"]), _defs(["A", "B"]), _defs(["A", "B", "C"])), "unregulated": st.sampled_from([False, False, True])})
     lookup_cases = st.fixed_dictionaries(
         {"defs": st.one_of(_defs(["A"]), _defs(["A", "B"])), "refs": st.lists(st.integers(0, 20), max_size=4), "api": st.sampled_from(["namespace", "files"])}
     )
